@@ -96,9 +96,8 @@ pub fn check(thorough: bool, _seed: u64) -> Check {
         us.push(Unit { alpha: order_alphabet(&e), ends: e, depth: if thorough { 3 } else { 2 } });
     }
     // big functions around size thresholds (every pair of arguments), and long sequences over a reduced alphabet
-    for n in threshold_sizes(thorough) {
-        if n > 12 && n <= if thorough { 257 } else { 129 } {
-            let e = iota(n);
+    for e in big_shapes(thorough, if thorough { 257 } else { 129 }) {
+        if e.len() > 12 {
             us.push(Unit { alpha: order_alphabet(&e), ends: e, depth: 2 });
         }
     }
